@@ -26,6 +26,24 @@ import z3
 
 FAST_MS = 400
 
+# When set to a bit width W, symbolic*symbolic multiplication and
+# symbolic % <odd constant> are NOT encoded exactly but as uninterpreted
+# functions over W-bit sign-extended operands (MUL is made commutative by
+# ordering its arguments).  Used for field arithmetic whose exact encoding the
+# solver cannot decide (Poly1305, X25519): everything around the field
+# operations stays exact.  Only the interval bookkeeping relies on the real
+# meaning of the operations.
+ABSTRACT_ARITH = None
+_AF = {}
+
+
+def _afn(name, nargs, w):
+    key = (name, nargs, w)
+    if key not in _AF:
+        _AF[key] = z3.Function("%s_%d" % (name, w),
+                               *([z3.BitVecSort(w)] * (nargs + 1)))
+    return _AF[key]
+
 
 class PathAbort(BaseException):
     """Current path is infeasible (or cut by the harness); not an error."""
@@ -231,6 +249,19 @@ class SymInt(object):
         c = [self.lo * o.lo, self.lo * o.hi, self.hi * o.lo, self.hi * o.hi]
         lo, hi = min(c), max(c)
         w = max(bits_for(lo, hi), self.w + o.w)
+        if ABSTRACT_ARITH and self.conc() is None and o.conc() is None:
+            W = ABSTRACT_ARITH
+            if w > W:
+                raise Unsupported("abstract multiplication wider than %d" % W)
+            a, b = self.at(W), o.at(W)
+            f = _afn("MUL", 2, W)
+            r = f(a, b)
+            res = SymInt(r, lo, hi, W)
+            # axioms instantiated at each use: commutativity, and the product
+            # lies in its interval
+            assume(z3.And(r == f(b, a), r >= z3.BitVecVal(lo, W),
+                          r <= z3.BitVecVal(hi, W)))
+            return res
         return SymInt(self.at(w) * o.at(w), lo, hi, w)
     __rmul__ = __mul__
 
@@ -322,6 +353,16 @@ class SymInt(object):
                 return self >> k, self & (oc - 1)
         if bool(o == 0):
             raise ZeroDivisionError("integer division or modulo by zero")
+        if ABSTRACT_ARITH and oc is not None and oc > 0 and self.lo >= 0 \
+                and self.conc() is None:
+            W = ABSTRACT_ARITH
+            if self.w > W:
+                raise Unsupported("abstract modulo wider than %d" % W)
+            r = _afn("MOD%x" % oc, 1, W)(self.at(W))
+            assume(z3.And(r >= 0, r < z3.BitVecVal(oc, W)))
+            q = _afn("DIV%x" % oc, 1, W)(self.at(W))
+            return (SymInt(q, self.lo // oc, self.hi // oc, W),
+                    SymInt(r, 0, min(self.hi, oc - 1), W))
         if self.lo >= 0 and o.lo > 0:
             w = max(self.w, o.w)
             q = SymInt(z3.UDiv(self.at(w), o.at(w)),
